@@ -289,7 +289,7 @@ def run(tier):
     from cxxheaderparser.lexer import BoundedTokenStream
 
     ck = Check("C02", tier)
-    depth, ntok = (2, 4) if tier == "quick" else (3, 6)
+    depth, ntok = (2, 4) if tier == "quick" else (3, 5)
     ck.encode(CxxParser._parse_cv_ptr_or_fn, CxxParser._parse_cv_ptr, CxxParser._parse_array_type, CxxParser._parse_pqname, CxxParser._parse_pqname_fundamental,
               CxxParser._parse_template_specialization, CxxParser._parse_trailing_return_type, CxxParser._parse_parameter, BoundedTokenStream)
     ctxs = contexts()
